@@ -15,7 +15,7 @@ use std::time::Duration;
 /// `solo(m, o, c)` for every task asked about, each computed in its own forked process
 /// (fresh statics, fresh thread, fresh Globals, its own hash keys) and memoised.
 pub struct References {
-    map: HashMap<(String, bool, String, bool), Rc<SoloResult>>,
+    map: HashMap<(String, bool, String, bool, bool), Rc<SoloResult>>,
     pub key_seed: u64,
     pub computed: u64,
     pub timeout: Duration,
@@ -26,7 +26,7 @@ impl References {
         References { map: HashMap::new(), key_seed, computed: 0, timeout }
     }
     pub fn get(&mut self, t: &PlanTask) -> Rc<SoloResult> {
-        let k = (t.src.clone(), t.ts, t.options.clone(), t.comments);
+        let k = (t.src.clone(), t.ts, t.options.clone(), t.comments, t.script);
         if let Some(r) = self.map.get(&k) {
             return r.clone();
         }
@@ -53,7 +53,7 @@ impl References {
     }
     /// Hands over a reference computed elsewhere (the shared solo table).
     pub fn preload(&mut self, t: &PlanTask, r: SoloResult) {
-        self.map.insert((t.src.clone(), t.ts, t.options.clone(), t.comments), Rc::new(r));
+        self.map.insert((t.src.clone(), t.ts, t.options.clone(), t.comments, t.script), Rc::new(r));
     }
     pub fn budgets(&mut self, plan: &Plan) -> Vec<u32> {
         plan.tasks.iter().map(|t| sched::sim_budget(self.get(t).steps)).collect()
@@ -294,7 +294,7 @@ pub fn handle_request(bytes: &[u8]) -> Vec<u8> {
         Request::Run { plan, script, solos, budgets } => {
             let mut refs = References::new(0, Duration::from_secs(1));
             for (t, s) in plan.tasks.iter().zip(solos) {
-                refs.map.insert((t.src.clone(), t.ts, t.options.clone(), t.comments), Rc::new(s));
+                refs.map.insert((t.src.clone(), t.ts, t.options.clone(), t.comments, t.script), Rc::new(s));
             }
             let rec: RunRecord = sched::execute(&plan, script.as_deref(), &budgets);
             let checked = check(&plan, &rec, &mut refs);
